@@ -6,9 +6,14 @@
                                 store (and received map) equals the active's table (= the snapshot:
                                 the full sync is one atomic step of the schedule)
    1  stream_applies_in_order : broadcasts leave the pending queue in push order; deliveries reach
-                                the standby in the order they entered the stream; a delivery changes
-                                the standby's store exactly by that message; nothing else but a full
-                                sync changes the standby's store
+                                the standby in the order they entered the stream and AS PUSHED (the
+                                decoded message equals the in-memory message that was broadcast:
+                                every field of the record, the sequence number, add/update); a
+                                delivery changes the standby's store exactly by that message (an
+                                add/update REPLACES the stored record by the pushed one — a field
+                                that went back to its zero value is zero on the standby — whatever
+                                the old record was); nothing else but a full sync changes the
+                                standby's store
    2  quiescent_convergence   : link streaming, nothing pending, nothing in the stream =>
                                 standby store = active store
    3  no_change_lost_connected: while the stream is connected no pushed change is refused (queue
@@ -23,16 +28,18 @@ Record sstate := mkSS { s_pend : list msg; s_q : list msg; s_sby : table; s_lnk 
 Definition sinit : sstate := mkSS [] [] [] LDown.
 
 Definition snext (ss : sstate) (o : op) (ob : out) : sstate :=
-  let p := match o_res ob with
-           | RPush m true => s_pend ss ++ [m]
-           | RBcast m _ => match o with Broadcast => tl (s_pend ss) | _ => s_pend ss end
-           | _ => s_pend ss
+  let p := match o, o_res ob with
+           | Restart, _ => []
+           | _, RPush m true => s_pend ss ++ [m]
+           | Broadcast, RBcast m _ => tl (s_pend ss)
+           | _, _ => s_pend ss
            end in
   let q := match o, o_res ob with
            | _, RBcast m BQueued => s_q ss ++ [m]
            | _, RDeliver _ => tl (s_q ss)
            | Attach, RNone => []
            | Disconnect, RNone => []
+           | Restart, _ => []
            | _, _ => s_q ss
            end in
   mkSS p q (o_sby ob) (o_lnk ob).
@@ -48,7 +55,7 @@ Definition v0 (o : op) (ob : out) : bool :=
 
 Definition v1 (ss : sstate) (o : op) (ob : out) : bool :=
   match o, o_res ob with
-  | Broadcast, RBcast m _ => negb (head_is (s_pend ss) m)
+  | Broadcast, RBcast m _ => negb (head_is (s_pend ss) m && teqb (o_sby ob) (s_sby ss))
   | Deliver, RDeliver m => negb (head_is (s_q ss) m && teqb (o_sby ob) (apply_msg m (s_sby ss)))
   | FullSync, RSync true => false
   | _, _ => negb (teqb (o_sby ob) (s_sby ss))
@@ -63,7 +70,7 @@ Definition v2 (ob : out) : bool :=
 Definition v3 (ss : sstate) (ob : out) : bool :=
   match s_lnk ss, o_res ob with
   | LStreaming, RPush _ false => true
-  | LStreaming, RBcast (MPut _ _ _) BDropped | LStreaming, RBcast (MDel _ _) BDropped => true
+  | LStreaming, RBcast (MPut _ _ _ _) BDropped | LStreaming, RBcast (MDel _ _) BDropped => true
   | _, _ => false
   end.
 
@@ -71,8 +78,10 @@ Definition v9 (o : op) (ob : out) : bool :=
   match o, o_res ob with
   | Put _ _, RPush _ _ | Del _, RPush _ _ => false
   | Broadcast, RBcast _ _ | Broadcast, RSkip => false
-  | Heartbeat, RBcast MHb _ => false
+  | Heartbeat, RBcast (MHb _) _ => false
   | FullSync, RSync _ | FullSync, RSkip => false
+  | SyncFail, RSync false | SyncFail, RSkip => false
+  | Restart, RNone => false
   | Attach, RNone | Attach, RSkip => false
   | Deliver, RDeliver _ | Deliver, RSkip => false
   | Disconnect, RNone | Disconnect, RSkip => false
@@ -111,3 +120,31 @@ Fixpoint lossless (c : config) (s : state) (ops : list op) : bool :=
   | o :: tl => let '(s', _, mk) := step c s o in
                match mk with [] => lossless c s' tl | _ => false end
   end.
+
+(* weaker guard for the convergence clause: what was lost on the STREAM (a change broadcast to nobody
+   between a full sync and the attach, 1302; a change dropped on a full client channel, 1303) is
+   repaired by the next completed full sync, and a restart of the active empties its queues; only a
+   change refused by the full pending queue (1304: the store was updated, nothing was queued) stays
+   harmful while older messages about that session may still be queued — until the active restarts. *)
+Inductive taint := Clean | StreamLoss | PushLoss.
+Definition has (k : N) (mk : list N) : bool := existsb (N.eqb k) mk.
+Definition taint_step (t : taint) (o : op) (ob : out) (mk : list N) : taint :=
+  match o with
+  | Restart => Clean
+  | _ =>
+    if has 1304 mk then PushLoss else
+    match t with
+    | PushLoss => PushLoss
+    | _ => match o_res ob with
+           | RSync true => Clean
+           | _ => if has 1302 mk || has 1303 mk then StreamLoss else t
+           end
+    end
+  end.
+Fixpoint taint_run (c : config) (s : state) (t : taint) (ops : list op) : taint :=
+  match ops with
+  | [] => t
+  | o :: tl => let '(s', ob, mk) := step c s o in taint_run c s' (taint_step t o ob mk) tl
+  end.
+Definition healed (c : config) (s : state) (ops : list op) : bool :=
+  match taint_run c s Clean ops with Clean => true | _ => false end.
